@@ -146,7 +146,30 @@ def w_table_id_shadows_function(acc):
            {('A', 'F'): 'SUM([$D, 1])'}, v0, S['A'][1]['F'], None)
 
 
+def w_sister_collision(acc):
+  """Formula columns of the same id in two summary tables of one source are renamed together; the new id is made
+  unique only in the table of the column the request names, so it can collide in the sister's table."""
+  with EngineProc() as p:
+    p.init_doc()
+    p.apply([['AddTable', 'T', [_col('K', 'Text'), _col('V', 'Text')]]])
+    p.apply([['BulkAddRecord', 'T', [None, None], {'K': ['a', 'b'], 'V': ['x', 'y']}]])
+    p.apply([['CreateViewSection', 1, 0, 'record', [2], None]])
+    p.apply([['CreateViewSection', 1, 0, 'record', [2, 3], None]])
+    p.apply([['AddColumn', 'T_summary_K', 'a', {'type': 'Any', 'isFormula': True, 'formula': 'len($group)'}]])
+    p.apply([['AddColumn', 'T_summary_K_V', 'a', {'type': 'Any', 'isFormula': True, 'formula': 'len($group) + 1'}]])
+    p.apply([['AddColumn', 'T_summary_K_V', 'b', {'type': 'Any', 'isFormula': True, 'formula': '$a * 2'}]])
+    acc.count('witness_runs')
+    r, err = p.try_apply([['RenameColumn', 'T_summary_K', 'a', 'b']])
+    if err is not None:
+      acc.violation('sister_column_rename_collision', 'witness: RenameColumn T_summary_K a b raised %s' % err.text[:160], None)
+      return
+    _recalc(p)
+    S = snapshot.take(p)
+    if S['T_summary_K_V'][1].get('b') != [2.0, 2.0] and [2.0, 2.0] not in [v for c, v in S['T_summary_K_V'][1].items()]:
+      acc.violation('value_changed', 'witness: after RenameColumn T_summary_K a b the sister table holds %r' % (S['T_summary_K_V'][1],), None)
+
+
 def run(acc):
-  for fn in (w_multiline_fstring, w_comprehension_reflist, w_table_named_like_function, w_sort_by, w_stale_record_relation,
+  for fn in (w_sister_collision, w_multiline_fstring, w_comprehension_reflist, w_table_named_like_function, w_sort_by, w_stale_record_relation,
              w_table_id_shadows_function):
     fn(acc)
